@@ -53,6 +53,26 @@ def main(inp, outp):
 
     primes = job["primes"]
     stations = {}
+    # ---- the coordinates of a station are values: whatever Python type carries them (ints, floats, list, tuple, array) ------
+    if job.get("axes"):
+        k = 0
+        for lat_d, lon_d, alt in ((45, 10, 100), (-33, 151, 0), (0, 0, 0), (60, -120, 500), (-89, 179, 8800)):
+            ref = geodetic(math.radians(lat_d), math.radians(lon_d), float(alt))
+            for how, val in (("tuple of ints", (lat_d, lon_d, alt)), ("list of ints", [lat_d, lon_d, alt]), ("int array", np.array([lat_d, lon_d, alt])),
+                             ("tuple of floats", (float(lat_d), float(lon_d), float(alt))), ("float array", np.array([lat_d, lon_d, alt], dtype=float)),
+                             ("mixed", (lat_d, float(lon_d), alt))):
+                k += 1
+                given = val.copy() if isinstance(val, (list, np.ndarray)) else val
+                sta = create_station(f"VfI{k}", given)
+                o = np.asarray(StateVector([0, 0, 0, 0, 0, 0], DATE, "cartesian", sta).copy(frame="ITRF"), float)
+                up = np.asarray(StateVector([0, 0, 1000.0, 0, 0, 0], DATE, "cartesian", sta).copy(frame="ITRF"), float)[:3] - o[:3]
+                nrm = np.array([math.cos(math.radians(lat_d)) * math.cos(math.radians(lon_d)), math.cos(math.radians(lat_d)) * math.sin(math.radians(lon_d)),
+                                math.sin(math.radians(lat_d))])
+                res["evaluations"] += 1
+                clause("the station sits at the geodetic position of its coordinates whatever Python type carries them (ints, floats, list, tuple, array)",
+                       np.linalg.norm(o[:3] - ref) <= 1e-6 and np.linalg.norm(up / 1000.0 - nrm) <= 1e-9, "topo/coordinate-type",
+                       f"create_station(..., {how} {tuple(int(x) for x in (lat_d, lon_d, alt))}): origin {np.linalg.norm(o[:3] - ref):.4g} m from the geodetic position, "
+                       f"zenith off by {np.linalg.norm(up / 1000.0 - nrm):.3g}", {"latlonalt": [lat_d, lon_d, alt], "given_as": how})
     for vi, v in enumerate(job.get("axes", [])):
         lat = math.atan2(v["lat"][1], v["lat"][0])
         lon = math.atan2(v["lon"][1], v["lon"][0])
